@@ -105,7 +105,7 @@ def digest32(text):
 
 
 EXT = {'json': 'json', 'list': 'json', 'str': 'json', 'int': 'json', 'gen': 'jsonl', 'gen0': 'jsonl', 'lazy': 'jsonl', 'npy': 'npy',
-       'pd': 'pd', 'dir': None, 'cont': None, 'listnpy': None, 'listnpy12': None, 'mem': None}
+       'pd': 'pd', 'dir': None, 'cont': None, 'listnpy': None, 'listnpy12': None, 'mem': None, 'memlen': None}
 
 
 def layout(base_parts, group, task_name, key, data):
